@@ -334,6 +334,7 @@ full:
 
 		var pbytes, pBatchesAdded int
 		var lastMeta *batchMeta
+		var hitMaxBytes bool
 		// Walk batches starting from the found position (segIdx, metaIdx).
 		// The first segment starts at metaIdx; subsequent segments start at 0.
 	segments:
@@ -349,7 +350,11 @@ full:
 					break segments
 				}
 				if nbytes += int(m.nbytes); nbytes > int(req.MaxBytes) && batchesAdded > 0 {
-					break full
+					// The response is full. Finish this partition (it
+					// may already hold batches and still needs its
+					// aborted transactions) before leaving.
+					hitMaxBytes = true
+					break segments
 				}
 				if pbytes += int(m.nbytes); pbytes > int(fp.maxBytes) && batchesAdded > 0 {
 					break segments
@@ -385,6 +390,9 @@ full:
 				at.FirstOffset = e.firstOffset
 				sp.AbortedTransactions = append(sp.AbortedTransactions, at)
 			}
+		}
+		if hitMaxBytes {
+			break full
 		}
 	}
 
